@@ -281,6 +281,8 @@ class AdaptiveThresholdRejectionSampler(AdaptiveSampler):
         if self.last_points is None or unreduced_loss is None:
             self.last_points = new_points
         else:
+            # one loss value per point (mean-type conditions hand over extra axes)
+            unreduced_loss = unreduced_loss.reshape(len(self.last_points), -1).sum(dim=1)
             max_l, min_l = torch.max(unreduced_loss), torch.min(unreduced_loss)
             filter_tensor = (
                 unreduced_loss < min_l + (max_l - min_l) * self.resample_ratio
@@ -328,6 +330,8 @@ class AdaptiveRandomRejectionSampler(AdaptiveSampler):
         if self.last_points is None or unreduced_loss is None:
             self.last_points = new_points
         else:
+            # one loss value per point (mean-type conditions hand over extra axes)
+            unreduced_loss = unreduced_loss.reshape(len(self.last_points), -1).sum(dim=1)
             max_l, min_l = torch.max(unreduced_loss), torch.min(unreduced_loss)
             filter_tensor = unreduced_loss < min_l + (max_l - min_l) * torch.rand_like(
                 unreduced_loss
